@@ -50,10 +50,13 @@ def assemble(repo, cdir, unit, mutate=None, mustfail=False):
         prelude = read(os.path.join(VERIF, "prelude"), "std_int.rs") + "\n" + prelude
     parts.append(prelude)
     parts.append("\n// ---- proofs: spec functions and lemmas (checked) ----\n")
-    proofs = read(cdir, unit.get("proofs"))
+    pf = unit.get("proofs")
+    proofs = unit.get("proofs_header", "") + "".join(read(cdir, f) for f in (pf if isinstance(pf, (list, tuple)) else [pf]))
     parts.append(proofs)
     parts.append("\n// ---- extracted from the repository working tree ----\n")
     for it in unit["items"]:
+        if unit.get("global_edits") and it["path"][-1].startswith("fn "):
+            it = dict(it, edits=list(unit["global_edits"]) + list(it.get("edits") or []))
         ex = extract_item(repo, it, log)
         if mutate and mutate.get("item") in (None, ex["name"]):
             n = ex["text"].count(mutate["find"])
@@ -233,7 +236,8 @@ def check_unit(repo, cdir, unit, workdir, tier="quick", seed=0):
                 res["status"] = "undecided"
                 res["undecided"].append("trusted construct %r inside extracted item %s" % (kw, it["name"]))
     for kw in ("assume(", "admit("):
-        if kw in read(cdir, unit.get("proofs")):
+        pf_ = unit.get("proofs")
+        if kw in "".join(read(cdir, f) for f in (pf_ if isinstance(pf_, (list, tuple)) else [pf_])):
             res["status"] = "undecided"
             res["undecided"].append("trusted construct %r inside proofs" % kw)
     if res["status"] == "undecided":
